@@ -46,6 +46,16 @@ CLAIMS["C37"] = dict(
     note="Manifest is a structural model of the fields feature_flags.rs reads; to_lowercase is modelled on ASCII.",
 )
 
+CLAIMS["C15"] = dict(
+    engine="kani-transplant",
+    technique="bounded symbolic execution of deletion.rs / address.rs with Kani+CBMC (symbolic deletion sets over the whole u32 domain, symbolic offsets)",
+    text=("Decides the kernels random access rests on: RowAddress packing/unpacking and ordering for all (u32,u32); DeletionVector membership, "
+          "cardinality and range queries against its contents; and OffsetMapper::map_offset -- for every deletion set of <=2 intervals and every "
+          "valid non-decreasing pair of logical offsets the result is the offset-th live row, is not deleted, and the binary search terminates. "
+          "take/take_rows themselves (async I/O over Arrow) are outside; the claim is restricted to these kernels."),
+    note="HashSet and RoaringBitmap are models (sorted array, <=3 intervals). Quick tier bounds fragments to 2^10 rows, thorough 2^32 (one lookup) and 2^16 (two lookups).",
+)
+
 _IO = "truth lives in async object-store/tokio orchestration (crash points, interleavings, listings); Kani/CBMC has no model of tokio or object_store and no pure kernel implies the statement"
 NOT_APPLICABLE.update({
     "C01": "commit atomicity over crash points: " + _IO,
@@ -74,5 +84,5 @@ NOT_APPLICABLE.update({
     "C42": "relocatability is a statement about every path written by every writer being relative; decided by I/O",
 })
 _PLANNED = "planned in DESIGN.md §5 but its check is not built yet, so it is not claimed"
-for _p in ["C09", "C15", "C17", "C19", "C20", "C26", "C27", "C28", "C29", "C30", "C32", "C33", "C34", "C35", "C36", "C41", "C43"]:
+for _p in ["C09", "C17", "C19", "C20", "C26", "C27", "C28", "C29", "C30", "C32", "C33", "C34", "C35", "C36", "C41", "C43"]:
     NOT_APPLICABLE.setdefault(_p, _PLANNED)
